@@ -9,7 +9,12 @@ import tracegen as tg
 import vlib
 
 THEOREMS = ["C20_replay_frees_traced_block", "C20_unknown_free_changes_nothing", "C20_free_never_panics", "C20_final_count",
-            "C20_final_count_no_overwrite", "C20_allocator_spec", "C20_first_fit_ok", "C20_old_refuted"]
+            "C20_final_count_no_overwrite", "C20_allocator_spec", "C20_first_fit_ok", "C20_old_refuted",
+            # the same loop over the modelled real allocator (Upper.v): coq/ReplayLLFree.v
+            "C20_llfree_frees_traced_block", "C20_llfree_free_never_fails", "C20_llfree_unknown_free",
+            "C20_llfree_reachable", "C20_llfree_final_count", "C20_llfree_final_count_new",
+            "C20_llfree_step_simulated", "C20_llfree_run_simulated", "C20_run_with_repeat",
+            "C20_llfree_builtin_policies", "C20_llfree_example"]
 EVAL_TARGET = os.path.join(vlib.TARGET, "eval")
 CLASSES_JSON = os.path.join(vlib.REPO, "results", "classes.json")
 
@@ -190,7 +195,12 @@ def run(ctx):
         "an abstract allocator given by its frame-ownership specification with an arbitrary allocation oracle: every free "
         "inside a tracked allocation puts exactly the traced part and succeeds, unknown frees change nothing, the final "
         "free count is max_pfn minus what the trace holds (trace_held, a function of the trace alone; re-allocated-over "
-        "blocks are counted explicitly as held). The model is tied to the compiled replay binary by running both on the "
+        "blocks are counted explicitly as held). The same theorems (C20_llfree_*) for the loop running over the sequential "
+        "model of the real allocator (Upper.v llfree_get / llfree_put / llfree_stats; every wf geometry, every policy with "
+        "pol_refl_match / pol_demote_trans, initial state from llfree_new FreeAll; events with a valid request and order "
+        "<= tree order): every traced put returns Ok and changes abs by exactly spec_put, including parts of blocks of "
+        "order >= the huge order; stats().free_frames at the end = max_pfn - trace_held; each step is a step of the "
+        "abstract loop under a choose_ok oracle. The model is tied to the compiled replay binary by running both on the "
         "same synthetic binary traces.",
         "traces: the traces of the Coq examples + all traces of up to 2 (quick) / 3 (thorough) aligned events over pfns 4..7 "
         "at orders 0..2 that start with an allocation and a seeded sample of those with one more event (every "
